@@ -128,9 +128,16 @@ static void stepLine(std::ostream& out, int t, Obj const& f, AbstractSingleObjec
 static void doRun(std::istringstream& is, std::ostream& out) {
 	std::string alg; std::size_t n, lambda, mu; int recomb; double sigma0; unsigned seed; int fid; double scale; int steps;
 	is >> alg >> n >> lambda >> mu >> recomb >> sigma0 >> seed >> fid >> scale >> steps;
+	// optional: the SAME optimizer object first performs a complete earlier run (objective pre_fid, pre_steps steps,
+	// another seed) and is then initialised again; everything printed must equal the run of a fresh object
+	int pre_fid = 0, pre_steps = 0; is >> pre_fid >> pre_steps; if (!is) pre_steps = 0;
 	out << "RUN\n";
 	try {
 		Obj f(fid, n, scale);
+		Obj pre(pre_fid, n, 1.0); RealVector prestart;
+		if (pre_steps > 0) { random::globalRng.seed(seed + 104729); pre.init(); prestart = pre.proposeStartingPoint(); }
+#define PRE_RUN(o, INITCALL) if (pre_steps > 0) { Obj& f = pre; RealVector& start = prestart; random::globalRng.seed(seed + 15485863); INITCALL; \
+		for (int t = 0; t < pre_steps; ++t) o.step(pre); }
 		random::globalRng.seed(seed + 7919);
 		f.init();
 		RealVector start = f.proposeStartingPoint();
@@ -139,14 +146,17 @@ static void doRun(std::istringstream& is, std::ostream& out) {
 		if (alg == "CMA") {
 			CMA o; o.recombinationType() = CMA::RecombinationType(recomb < 0 ? 2 : recomb);
 			if (lambda) o.setLambda(lambda); if (mu) o.setMu(mu); if (sigma0 > 0) o.setInitialSigma(sigma0);
+			PRE_RUN(o, o.init(f, start)); random::globalRng.seed(seed);
 			o.init(f, start);
 			for (int t = 0; t < steps; ++t) { o.step(f); stepLine(out, t, f, o, o.mean(), hx(o.sigma()), o.covarianceMatrix(), true); }
 		} else if (alg == "CMSA") {
 			CMSA o; if (lambda) o.setLambda(lambda); if (mu) o.setMu(mu); if (sigma0 > 0) o.setInitialSigma(sigma0);
+			PRE_RUN(o, o.init(f, start)); random::globalRng.seed(seed);
 			o.init(f, start);
 			for (int t = 0; t < steps; ++t) { o.step(f); stepLine(out, t, f, o, o.m_mean, hx(o.sigma()), cholCov(o.m_mutationDistribution.lowerCholeskyFactor()), true); }
 		} else if (alg == "ECMA") {
 			ElitistCMA o; o.activeUpdate() = (recomb != 0);
+			PRE_RUN(o, o.init(f, start)); random::globalRng.seed(seed);
 			o.init(f, start); if (sigma0 > 0) o.sigma() = sigma0;
 			for (int t = 0; t < steps; ++t) {
 				o.step(f);
@@ -154,6 +164,7 @@ static void doRun(std::istringstream& is, std::ostream& out) {
 			}
 		} else if (alg == "VDCMA") {
 			VDCMA o; if (sigma0 > 0) o.setInitialSigma(sigma0);
+			PRE_RUN(o, if (lambda && mu) o.init(f, start, lambda, mu, sigma0 > 0 ? sigma0 : 1.0 / std::sqrt(double(n))); else o.init(f, start)); random::globalRng.seed(seed);
 			if (lambda && mu) o.init(f, start, lambda, mu, sigma0 > 0 ? sigma0 : 1.0 / std::sqrt(double(n))); else o.init(f, start);
 			for (int t = 0; t < steps; ++t) {
 				o.step(f);
@@ -167,6 +178,7 @@ static void doRun(std::istringstream& is, std::ostream& out) {
 		} else if (alg == "CEM" || alg == "CEMN") {
 			CrossEntropyMethod o;
 			if (alg == "CEMN") o.setNoiseType(new CrossEntropyMethod::LinearNoise(sigma0, -sigma0 / 50.0));   // documented schedule z_t = max(a + t*b, 0)
+			PRE_RUN(o, if (lambda && mu) o.init(f, start, (unsigned)lambda, (unsigned)mu, RealVector(n, recomb > 0 ? double(recomb) : 100.0)); else o.init(f, start)); random::globalRng.seed(seed);
 			if (lambda && mu) o.init(f, start, (unsigned)lambda, (unsigned)mu, RealVector(n, recomb > 0 ? double(recomb) : 100.0)); else o.init(f, start);
 			for (int t = 0; t < steps; ++t) {
 				o.step(f);
@@ -174,7 +186,7 @@ static void doRun(std::istringstream& is, std::ostream& out) {
 				stepLine(out, t, f, o, o.mean(), hv(o.variance()), C, true);
 			}
 		} else if (alg == "SIMPLEX") {
-			SimplexDownhill o; o.init(f, start);
+			SimplexDownhill o; PRE_RUN(o, o.init(f, start)); random::globalRng.seed(seed); o.init(f, start);
 			for (int t = 0; t < steps; ++t) { o.step(f); stepLine(out, t, f, o, o.solution().point, "", none, false); }
 		} else out << "ERR unknown alg\n";
 	} catch (std::exception const& e) { out << "EXC " << e.what() << "\n"; }
